@@ -61,6 +61,9 @@ def gen_atoms(rnd: random.Random, n: int, cell=None, arrays: float = 0.5, uid: b
             cons.append({"type": "FixAtoms", "indices": sorted(rnd.sample(range(n), k))})
         if "fixcom" in constraints:
             cons.append({"type": "FixCom"})
+        if "fixrot" in constraints:
+            cons.append({"type": "FixRot"})
+            spec["pbc"] = False
     spec["constraints"] = cons
     return spec
 
